@@ -271,21 +271,24 @@ def parseLoop (s : St) : Nat → St × Outcome
       | (s, .inl ()) => parseLoop s fuel
       | (s, .inr o) => (s, o)
 
-/-- `OptAidlParser::parse` followed by the result handling of `Parser::add_content` -/
-def addContent (id : String) (text : String) : Except String FileResult :=
-  let cs := text.toList
-  let fuel := 64 * (cs.length + 2) + 1024
-  match parseLoop T env { input := cs } fuel with
-  | (_, .panic m) => .error m
-  | (_, .fuelOut) => .error "fuelOut"
-  | (s, .accept v) =>
+/-- the result handling of `Parser::add_content` (its `match rule_result`) -/
+def finish (id : String) (s : St) (o : Outcome) : Except String FileResult :=
+  match o with
+  | .panic m => .error m
+  | .fuelOut => .error "fuelOut"
+  | .accept v =>
     match v with
     | .none_ => .ok { id, ast := none, diags := s.diags }
     | .some_ (.aidl a) => .ok { id, ast := some a, diags := s.diags }
     | _ => .error "accept: unexpected value"
-  | (s, .error e) =>
+  | .error e =>
     match (fromParseError e).run env |>.run s.diags with
     | .error m => .error m
     | .ok (d, diags) => .ok { id, ast := none, diags := diags ++ [d] }
+
+/-- `OptAidlParser::parse` followed by the result handling of `Parser::add_content` -/
+def addContent (id : String) (text : String) : Except String FileResult :=
+  let r := parseLoop T env { input := text.toList } (64 * (text.toList.length + 2) + 1024)
+  finish env id r.1 r.2
 
 end Aidl.Lr
